@@ -762,7 +762,10 @@ class BaseBackend(CodeGen):
             step = i + t0
             rhs = func(step, y, *args)
             y_0 = y + dt * rhs
-            y += dt/2 * (rhs + func(step, y_0, *args))
+            # `func` may return the same in-place buffer on every call: consume the predictor slope before the
+            # corrector evaluation overwrites it
+            y += dt/2 * rhs
+            y += dt/2 * func(step, y_0, *args)
             if has_dde:
                 args[0].update((i + 1) * dt, y)
 
